@@ -12,7 +12,7 @@
      for every admitted query, fault script and arrival pattern: exactly one reply reaches
      the client's socket, no later than querytimeout + margin; expiry/cancel/capacity
      refusal is a SERVFAIL to that client only; after load stops the server is quiescent. *)
-From Sdns Require Import Common.Base Gen.C11 C11.Model C11.Proofs_Writer C11.Proofs_WG C11.Proofs_Req C11.Proofs_World C11.Proofs_Lazy C11.Stream C11.Proofs_Stream C11.Regroup C11.Proofs_Regroup C11.Proofs_Live C11.Proofs_Quiesce C11.Shutdown C11.Proofs_Shutdown C11.Proofs_Dispatch C11.Flights C11.Proofs_Flights C11.Inline C11.Proofs_Inline.
+From Sdns Require Import Common.Base Common.GoList Gen.C11 C11.Model C11.Proofs_Writer C11.Proofs_WG C11.Proofs_Req C11.Proofs_World C11.Proofs_Lazy C11.Stream C11.Proofs_Stream C11.Regroup C11.Proofs_Regroup C11.Proofs_Live C11.Proofs_Quiesce C11.Shutdown C11.Proofs_Shutdown C11.Proofs_Dispatch C11.Flights C11.Proofs_Flights C11.Inline C11.Proofs_Inline C11.Interrupt C11.Proofs_Interrupt C11.Ingress C11.Proofs_Ingress C11.Proofs_Ties C11.Breaker C11.Proofs_Breaker.
 
 (* ---- translator ties ---- *)
 Theorem writer_sentinels_consistent :
@@ -409,3 +409,164 @@ Theorem backstop_is_the_only_double_charge :
   fst (fst (serve_query 0 1 true q (bk_full 0 client_unit) (bk_full 1 entry_unit))) = (PDropped, true).
 Proof. exact backstop_inline_loses_admitted_query. Qed.
 Print Assumptions backstop_is_the_only_double_charge.
+
+(* ---- lookup fan-out bounded by deadline; stragglers cancelled (session 5; Interrupt.v =
+   internal/dnsclient interrupt_group.go + Conn.Exchange / ExchangeInterruptible) ---- *)
+(* the order of Resolver.lookup's defers: the lookup's context is cancelled BEFORE the group is
+   detached.  Then, whatever arm / disarm / Close steps of however many exchanges fall before,
+   between and after the cancellation and the callback it starts: once the callback has run the
+   group has fired, and every connection armed at that moment or later - a straggler of the
+   fan-out, or an exchange that starts only afterwards - has had its deadline set to "now" since it
+   was armed *)
+Theorem cancel_before_close_reaches_every_straggler : forall ops1 ops2 ops3,
+  ~ In IClose ops1 -> ~ In ICancel ops1 ->
+  let g := ig_run ig0 (ops1 ++ ICancel :: ops2 ++ IFire :: ops3) in
+  ig_fired g = true /\ forallb slot_hit (ig_slots g) = true.
+Proof. exact cancel_before_close_lemma. Qed.
+Print Assumptions cancel_before_close_reaches_every_straggler.
+
+(* the hypothesis is necessary: detach first and the straggler is stranded until its network
+   deadline (what the seeded change C11-3 does to Resolver.lookup; the lab driver watches that order) *)
+Theorem close_before_cancel_strands_a_straggler :
+  let g := ig_run ig0 [IArm 7; IClose; ICancel; IFire] in
+  ig_fired g = false /\ nth 0 (ig_slots g) None = Some (7%nat, false).
+Proof. exact close_before_cancel_lemma. Qed.
+Print Assumptions close_before_cancel_strands_a_straggler.
+
+(* the reuse contract: whatever a step of the group touches is armed in it at that moment ... *)
+Theorem group_touches_only_armed : forall g o g' r t c,
+  ig_step g o = (g', r, t) -> In c t -> In c (armed_conns (ig_slots g')).
+Proof. exact touches_only_armed_lemma. Qed.
+Print Assumptions group_touches_only_armed.
+
+(* ... so once disarm has returned, no later step of any schedule touches that connection (until
+   somebody arms it again) *)
+Theorem no_touch_after_disarm : forall g s c ops,
+  ~ In c (armed_conns (set_slot (ig_slots g) s None)) -> ~ In (IArm c) ops ->
+  ~ In c (touched_run (ig_next g (IDisarm s)) ops).
+Proof. exact no_touch_after_disarm_lemma. Qed.
+Print Assumptions no_touch_after_disarm.
+
+(* arm refuses exactly when every slot is taken (the caller then registers on its own), and the
+   group never watches more connections than the source's interruptGroupSlots *)
+Theorem arm_refused_iff_full : forall g c,
+  snd (fst (ig_step g (IArm c))) = None <-> forallb slot_taken (ig_slots g) = true.
+Proof. exact arm_refused_iff_full_lemma. Qed.
+Print Assumptions arm_refused_iff_full.
+
+Theorem group_occupancy_bounded : forall ops,
+  (occupancy (ig_run ig0 ops) <= N.to_nat interrupt_group_slots)%nat.
+Proof. exact occupancy_bounded_lemma. Qed.
+Print Assumptions group_occupancy_bounded.
+
+(* one exchange, whatever the upstream sends and whenever: it returns no later than the bound its
+   connection carries (network deadline, replaced by "now" at the cancellation), and not before it
+   started *)
+Theorem exchange_returns_by_deadline_or_cancellation : forall x cancel,
+  (fst (xrun x cancel) <= Z.max (xs_start x) (xbound x cancel))%Z /\
+  (Forall (fun a => (xs_start x <= fst a)%Z) (xs_arr x) -> (xs_start x <= fst (xrun x cancel))%Z).
+Proof. exact exchange_bounded_lemma. Qed.
+Print Assumptions exchange_returns_by_deadline_or_cancellation.
+
+(* a straggler returns at the cancellation of its lookup at the latest, an exchange that starts
+   after it returns at once; and never later than its network deadline *)
+Theorem straggler_returns_at_cancellation : forall x c,
+  (fst (xrun x (Some c)) <= Z.max (xs_start x) c)%Z /\ (fst (xrun x (Some c)) <= Z.max (xs_start x) (xs_deadline x))%Z.
+Proof. exact straggler_cancelled_lemma. Qed.
+Print Assumptions straggler_returns_at_cancellation.
+
+(* "garbage, answers to the wrong question": an answer is accepted only when the matching
+   response arrived before the bound, preceded by nothing but datagrams carrying another ID (none
+   at all on a stream) *)
+Theorem exchange_accepts_only_the_matching_response : forall x cancel t, xrun x cancel = (t, XAnswer) ->
+  exists pre post, xs_arr x = pre ++ (t, DGood) :: post /\ Forall (fun a => snd a = DWrongId) pre /\
+    (xs_stream x = true -> pre = []) /\ (t < xbound x cancel)%Z.
+Proof. exact only_matching_accepted_lemma. Qed.
+Print Assumptions exchange_accepts_only_the_matching_response.
+
+(* stray / late / spoofed datagrams with another ID never change what a UDP exchange returns, nor when *)
+Theorem strays_never_change_the_outcome : forall x cancel,
+  xs_stream x = false -> arr_sorted (xs_start x) (xs_arr x) = true ->
+  xrun (mk_xs (xs_start x) (xs_deadline x) false (filter not_stray (xs_arr x))) cancel = xrun x cancel.
+Proof. exact strays_ignored_lemma. Qed.
+Print Assumptions strays_never_change_the_outcome.
+
+(* QuestionMatches as translated from the source: a response matches only with exactly one
+   question of the request's type and class whose name is the request's up to ASCII letter case *)
+Theorem wrong_question_never_matches : forall req resp, go_QuestionMatches req resp = true ->
+  exists r, resp = [r] /\ T_Question_Qtype r = T_Question_Qtype req /\ T_Question_Qclass r = T_Question_Qclass req /\
+    GoList.go_canonical_name_ascii (T_Question_Name r) = GoList.go_canonical_name_ascii (T_Question_Name req).
+Proof. exact question_match_sound_lemma. Qed.
+Print Assumptions wrong_question_never_matches.
+
+(* ---- "admitted (well-formed ...)": the header gate of the UDP ingress (session 5; Ingress.v uses
+   the srcgen translations of wire.ParseHeader, Header.QR / Opcode and server.acceptHeader) ---- *)
+(* for EVERY datagram (any octets): it enters the middleware chain exactly when it is a well-formed
+   query, spelt on the octets - at least a header, QR clear, opcode QUERY or NOTIFY, one question,
+   at most one answer, one authority and two additional records announced *)
+Theorem admitted_iff_well_formed_query : forall raw, octets raw ->
+  (ingress_of raw true = GChain <-> well_formed_query raw = true).
+Proof. exact admitted_iff_well_formed_lemma. Qed.
+Print Assumptions admitted_iff_well_formed_query.
+
+(* reflection policy at the gate: a response (QR set) or a fragment of a header is never answered,
+   whatever else it says and whether or not its body decodes *)
+Theorem responses_and_fragments_never_answered : forall raw dec, octets raw ->
+  ((go_len raw < 12)%Z \/ (128 <= go_idx 0%N raw 2)%N) ->
+  ingress_of raw dec = GDrop \/ ingress_of raw dec = GIgnore.
+Proof. exact responses_never_answered_lemma. Qed.
+Print Assumptions responses_and_fragments_never_answered.
+
+(* whatever is rejected is rejected with ONE bare header: twelve octets (never longer than what was
+   received), the request's ID, QR set, FORMERR or NOTIMP *)
+Theorem rejection_is_one_bare_header : forall raw dec r, ingress_of raw dec = GReject r ->
+  length r = 12%nat /\ (12 <= go_len raw)%Z /\
+  nth 0 r 0%N = go_idx 0%N raw 0 /\ nth 1 r 0%N = go_idx 0%N raw 1 /\ N.testbit (nth 2 r 0%N) 7 = true /\
+  (nth 3 r 0%N = reject_rcode_formerr \/ nth 3 r 0%N = reject_rcode_notimp).
+Proof. exact rejection_is_a_bare_header_lemma. Qed.
+Print Assumptions rejection_is_one_bare_header.
+
+(* translator tie: Written() as the source has it is the model's written flag *)
+Theorem written_is_model_written : forall gw,
+  go_responseWriter_Written gw =
+  w_written (mk_writer (T_responseWriter_size gw) (T_responseWriter_directPack gw) (T_responseWriter_internal gw)).
+Proof. exact gen_written. Qed.
+Print Assumptions written_is_model_written.
+
+(* the model's own exchanges meet the specification oracle the exchange driver's observations are
+   judged by, for every upstream script, deadline and cancellation instant *)
+Theorem model_exchange_meets_the_spec : forall cancel x,
+  Forall (fun a => (xs_start x <= fst a)%Z) (xs_arr x) ->
+  xspec cancel x (xmodel_obs cancel x) = true.
+Proof. exact model_exchange_meets_spec_lemma. Qed.
+Print Assumptions model_exchange_meets_the_spec.
+
+(* ---- the per-server circuit breaker of the resolver (session 5; Breaker.v = circuit_breaker.go) ---- *)
+(* after ANY history of canQuery / recordFailure / recordSuccess / cleanup calls over any servers and
+   any clock advances: a server is refused only while a full streak of failures (the source's trip
+   count) is on its record AND the last of them is no older than the open interval - so whatever an
+   upstream does, it is never shut out for longer than that after its last recorded failure *)
+Theorem breaker_refuses_only_tripped_and_recent : forall ops t0 s,
+  let '(m, now, _) := brun [] t0 ops in
+  snd (bstep m now (BCan s)) = false ->
+  exists r, bget m s = Some r /\ br_disabled r = true /\ (breaker_trip_count <= br_count r)%Z /\
+            (now - br_last r * 1000 <= open_ms)%Z.
+Proof. exact refused_only_tripped_and_recent_lemma. Qed.
+Print Assumptions breaker_refuses_only_tripped_and_recent.
+
+Theorem breaker_reopens : forall m now s,
+  (forall r, bget m s = Some r -> (open_ms < now - br_last r * 1000)%Z) ->
+  snd (bstep m now (BCan s)) = true.
+Proof. exact breaker_reopens_lemma. Qed.
+Print Assumptions breaker_reopens.
+
+Theorem success_reopens_at_once : forall m now now' s,
+  snd (bstep (fst (fst (bstep m now (BSucc s)))) now' (BCan s)) = true.
+Proof. exact success_reopens_lemma. Qed.
+Print Assumptions success_reopens_at_once.
+
+Theorem other_servers_untouched : forall m now s s' o,
+  s <> s' -> (o = BCan s \/ o = BFail s \/ o = BSucc s) ->
+  bget (fst (fst (bstep m now o))) s' = bget m s'.
+Proof. exact other_servers_untouched_lemma. Qed.
+Print Assumptions other_servers_untouched.
